@@ -83,7 +83,7 @@ def histories_check(chk, fails, stats):
     for combo in itertools.product(alphabet, repeat=L):
         histories.append(list(combo))
     stats["exhaustive_histories"] = len(histories)
-    for _ in range(300 if chk.tier == "quick" else 5000):
+    for _ in range(chk.size(300, 5000)):
         histories.append([rng.choice(alphabet[:12]) if rng.random() < 0.35 else rng.choice(alphabet) for _ in range(rng.randrange(4, 25))])
     base_texts = texts[:3] if True else texts
     jobs, plans = [], []
@@ -191,7 +191,7 @@ def canon_notif(n):
 
 def navigation_check(chk, fails, dis, stats):
     """every position of generated scripts: hover/definition through the server vs the scanner's expectation"""
-    n = 40 if chk.tier == "quick" else 800
+    n = chk.size(40, 800)
     jobs, infos = [], []
     for i in range(n):
         c, g = gen_check.valid_script(chk.seed + 4242, i, {"stmts_max": 2, "depth": 3, "ddepth": 2, "origins": 0.5})
